@@ -119,6 +119,9 @@ def _run_routine(routine, args=(), timeout=300):
     try:
         d = json.loads(out[-1])
     except Exception:
+        if out[-1].lstrip().startswith('{"found": true'):
+            # the routine reported a failing input but its report is not well-formed JSON: keep it as text
+            return {"found": True, "clause": "see raw report", "raw": out[-1][:3000], "rerun": "replay " + " ".join([routine] + list(args)), "routine": routine}
         return {"found": False, "error": "unparsable routine output", "stdout": p.stdout[-1500:]}
     d["routine"] = routine
     return d
